@@ -143,7 +143,7 @@ Example C11_pv_runs :
   /\ vmerge_pv true (mkClause OpGt (relver 0 [3; 7]%N)) (mkClause OpGe (relver 0 [3; 8; 5]%N)) = Ret (VMAtom (mkClause OpGe (relver 0 [3; 8; 5]%N))).
 Proof. split; [split; [reflexivity | cbn; auto] | vm_compute; reflexivity]. Qed.
 
-(* the specifier view of `name in "<list>"` / `name not in "<list>"` (session 4): it admits exactly the final versions that satisfy
+(* the specifier view of `name in "<list>"` / `name not in "<list>"` (session 4): it accepts exactly the final versions that satisfy
    one of (in) / every one of (not in) the member clauses, for each of the three modelled variables (python_version,
    python_full_version, platform_release; the code treats implementation_version like the latter), any number of members, members
    of any length.  Members are dotted releases (tokenised as their segments); an empty member (`"3.8,"`), which the code rejects
@@ -165,7 +165,7 @@ Theorem C11_in_view_pv neg items : items <> [] -> Forall (fun r => List.length r
     forall x y rest, mem (vcut (relver 0 (x :: y :: rest))) s = xorb neg (existsb (list_N_eqb [x; y]) items).
 Proof. exact (in_view_pv neg items). Qed.
 
-(* non-vacuity: python_version in "3.6, 3.10" is viewed as [3.6, 3.7) || [3.10, 3.11); it admits 3.10.4 and rejects 3.1 and 3.7.0 *)
+(* non-vacuity: python_version in "3.6, 3.10" is viewed as [3.6, 3.7) || [3.10, 3.11); it accepts 3.10.4 and rejects 3.1 and 3.7.0 *)
 Example C11_in_view_runs :
   exists s, in_view PV false [[3; 6]; [3; 10]]%N = Ret s
     /\ mem (vcut (relver 0 [3; 10; 4]%N)) s = true /\ mem (vcut (relver 0 [3; 1]%N)) s = false /\ mem (vcut (relver 0 [3; 7; 0]%N)) s = false.
